@@ -206,7 +206,7 @@ func realVerifier(payload, sig, vkey []byte, kesPeriod, slot, spkp uint64) (bool
 
 func TestC46(t *testing.T) {
 	rec := evi.New(t, "C46", evi.Exploration,
-		"rapid state machine over one MessageAuthenticator and 3 pools (ed25519 cold keys, depth-6 KES keys): actions register / unregister pool, submit a correctly signed message (issue number from a walk around the last accepted one with occasional jumps to 2^31, 2^32, 2^63, 2^64 edges, KES key evolved 0..3 periods, via VerifyMessage or VerifyMessageWithSlot), submit the same with exactly one of 13 corruptions, set / clear the real KES verifier (ledger.VerifyKesComponents), toggle insecure mode, drop the counter cache entry. Model: registered set + last accepted counter per pool + verifier/insecure flags; invariant after every submission: accepted <=> id ok AND cold signature ok AND (verifier set ? KES ok : insecure) AND registered AND counter >= last accepted; counter moves only on acceptance (observed through later submissions). non-trivial = a sequence containing >= 1 accepted and >= 1 rejected submission; distinct by the action history")
+		"rapid state machine over one MessageAuthenticator and 3 pools (ed25519 cold keys, depth-6 KES keys): actions register / unregister pool, submit a correctly signed message (issue number from a walk around the last accepted one with occasional jumps to 2^31, 2^32, 2^63, 2^64 edges, KES key evolved 0..3 periods, via VerifyMessage or VerifyMessageWithSlot), submit the same with exactly one of 13 corruptions, re-submit the last ACCEPTED message of a pool unchanged or with one of the corruptions (same cold key and signature), set / clear the real KES verifier (ledger.VerifyKesComponents), toggle insecure mode, drop the counter cache entry. Model: registered set + last accepted counter per pool + verifier/insecure flags; invariant after every submission: accepted <=> id ok AND cold signature ok AND (verifier set ? KES ok : insecure) AND registered AND counter >= last accepted; counter moves only on acceptance (observed through later submissions). non-trivial = a sequence containing >= 1 accepted and >= 1 rejected submission; distinct by the action history")
 	defer rec.Finish()
 	rec.Assume("the injected verifier is ledger.VerifyKesComponents (evolution = slot/slotsPerKESPeriod - payload KES period), i.e. the verifier a node would inject",
 		"KES signing itself is the library's kes package (its correctness is property C39)")
@@ -220,6 +220,7 @@ func TestC46(t *testing.T) {
 		registered := map[int]bool{}
 		last := map[int]uint64{}
 		hasLast := map[int]bool{}
+		lastGenuine := map[int]msgSpec{}
 		verifierSet := false
 		insecure := false
 		var hist []string
@@ -269,6 +270,9 @@ func TestC46(t *testing.T) {
 			if got {
 				last[s.Pool] = s.Issue
 				hasLast[s.Pool] = true
+				if s.Corruption == "" {
+					lastGenuine[s.Pool] = s
+				}
 			}
 		}
 
@@ -353,6 +357,39 @@ func TestC46(t *testing.T) {
 					}
 				}
 				submit(s)
+			},
+			// the message that was just accepted, sent again with one field changed (same
+			// cold key, same cold signature, same certificate otherwise): whatever the
+			// authenticator remembered from the genuine one must not vouch for the changed one
+			"replayAcceptedCorrupted": func(rt *rapid.T) {
+				var cands []int
+				for i := 0; i < 3; i++ {
+					if _, ok := lastGenuine[i]; ok {
+						cands = append(cands, i)
+					}
+				}
+				if len(cands) == 0 {
+					rt.Skip("nothing accepted yet")
+				}
+				s := lastGenuine[cands[rapid.IntRange(0, len(cands)-1).Draw(rt, "replayPool")]]
+				s.Corruption = corruptions[rapid.IntRange(0, len(corruptions)-1).Draw(rt, "corruption")]
+				if s.Corruption == "wrong-evolution" || s.Corruption == "slot-before-payload-period" {
+					s.UseSlotAPI = true
+					if s.Corruption == "slot-before-payload-period" && s.PayloadKP == 0 {
+						s.PayloadKP = 1
+					}
+				}
+				rec.Class("replay_of_accepted_with_corruption")
+				submit(s)
+			},
+			"replayAcceptedGenuine": func(rt *rapid.T) {
+				for i := 0; i < 3; i++ {
+					if s, ok := lastGenuine[i]; ok && rapid.Bool().Draw(rt, "replayThis") {
+						submit(s)
+						return
+					}
+				}
+				rt.Skip("nothing to replay")
 			},
 			"": func(rt *rapid.T) {
 				for i, p := range pools {
